@@ -22,6 +22,35 @@ JAR = '/opt/veriftools/tla/tla2tools.jar:/opt/veriftools/tla/CommunityModules-de
 NCPU = os.cpu_count() or 4
 
 
+def scrub_trace(t):
+    """TLC's JSON reader accepts neither null nor fractions.  The harness never produces them in its own fields (open pins
+    are -1, times are on an integer grid), so a null/fraction can only come out of the code under test where the record
+    documents an integer or a string: that observation is outside the specification's observation type.  For records with
+    a `raised` field it is reported through the NoException verdict (the spec's verdicts are guarded by ~raised); the value
+    is replaced so that TLC can load the batch.  Other records are left alone (TLC then fails loudly: machinery)."""
+    if not isinstance(t, dict) or 'raised' not in t:
+        return t
+    bad = []
+
+    def walk(x, path):
+        if x is None or (isinstance(x, float) and x != int(x) if isinstance(x, float) and x == x and abs(x) != float('inf') else isinstance(x, float)):
+            bad.append(path)
+            return 0
+        if isinstance(x, float):
+            return int(x)
+        if isinstance(x, dict):
+            return {k: walk(v, path + '.' + str(k)) for k, v in x.items()}
+        if isinstance(x, (list, tuple)):
+            return [walk(v, '%s[%d]' % (path, i)) for i, v in enumerate(x)]
+        return x
+    out = walk(t, '')
+    if bad:
+        out['raised'] = True
+        out['err'] = ('observation outside the documented types (null or fraction) at %s; ' % bad[0]) + str(t.get('err', ''))
+        t['raised'], t['err'] = True, out['err']          # the caller's record is used for the violation message
+    return out
+
+
 def import_kyupy():
     """Import kyupy from the current working tree of the repository (never a stale copy)."""
     src = os.path.join(REPO, 'src')
@@ -187,6 +216,7 @@ def extract_values(out, tag):
 
 class Check:
     """Bookkeeping of one check run (one property, one tier)."""
+    current = None
 
     def __init__(self, pid, tier=None, seed=None, level='model_checking'):
         self.pid = pid
@@ -215,6 +245,7 @@ class Check:
         kf = json.load(open(os.path.join(VERIF, 'known_findings.json')))
         self.known = {e['key']: e for e in kf.get('known', []) if e['property'] == pid}
         self._replay_n = 0
+        Check.current = self
         os.makedirs(os.path.join(OUT, 'evidence'), exist_ok=True)
 
     @property
@@ -298,6 +329,7 @@ class Check:
         single-worker TLC processes (measured: 16 workers on one batch are 3x SLOWER than 1 worker; 16 processes
         scale).  FAIL/DRIFT tuples must carry the trace number at position 1; it is mapped back to the batch."""
         from concurrent.futures import ThreadPoolExecutor
+        traces = [scrub_trace(t) for t in traces]
         n = len(traces)
         label = label or (cfg or module)
         if n == 0:
@@ -312,6 +344,28 @@ class Check:
             return idx, self.tlc(module, cfg, trace=tr, label='%s[%d::%d]' % (label, idx[0], k), **kw)
         with ThreadPoolExecutor(max_workers=len(parts)) as ex:
             res = list(ex.map(one, parts))
+        # A shard on which TLC cannot EVALUATE the verdicts (type error inside an operator, not a parse/config error)
+        # holds an observation outside the domain of the specification's operators.  Isolate it (bisection), report it
+        # as the verdict ObservationInDomain, and evaluate the rest of the shard without it.
+        extra_fails, res2 = [], []
+        for idx, r in res:
+            rounds, n_before = 0, len(extra_fails)
+            idx, tr = list(idx), [traces[j] for j in idx]
+            while self._eval_crash(r) and rounds < 3 and len(tr) > 1:
+                rounds += 1
+                at = self._isolate(module, cfg, tr, label, kw)
+                if at is None or not (isinstance(tr[at], dict) and 'raised' in tr[at]):
+                    break
+                extra_fails.append((self.pid, idx[at] + 1, 0, 'ObservationInDomain'))
+                traces[idx[at]]['err'] = 'TLC cannot evaluate the verdicts on this observation: ' + ' '.join(self._eval_crash(r))[:300]
+                del idx[at], tr[at]
+                r = self.tlc(module, cfg, trace=tr, label='%s[rest %d]' % (label, rounds), **kw)
+            if self._eval_crash(r) and rounds > 0 and len(extra_fails) > n_before:
+                # more such observations than are worth isolating: the rest of this shard stays unevaluated
+                self.extra['unevaluated_after_ObservationInDomain'] = self.extra.get('unevaluated_after_ObservationInDomain', 0) + len(tr)
+                r = TlcResult('', 0, r.wall)
+            res2.append((idx, r))
+        res = res2
         merged = TlcResult('', 0, max(r.wall for _, r in res))
         merged.label = label
         for idx, r in res:
@@ -328,7 +382,23 @@ class Check:
                 merged.fails.append((f[0], idx[f[1] - 1] + 1) + tuple(f[2:]))
             for f in r.drifts:
                 merged.drifts.append((f[0], idx[f[1] - 1] + 1) + tuple(f[2:]))
+        merged.fails += extra_fails
         return merged
+
+    @staticmethod
+    def _eval_crash(r):
+        return [e for e in r.crashed() if re.search(r'Attempted to|unable to fingerprint|was evaluating the nested|Cannot convert value', e)]
+
+    def _isolate(self, module, cfg, tr, label, kw):
+        """Index of one trace of `tr` on which TLC's evaluation fails by itself (None: not reproducible in isolation)."""
+        lo, hi = 0, len(tr)
+        while hi - lo > 1:
+            mid = (lo + hi) // 2
+            if self._eval_crash(self.tlc(module, cfg, trace=tr[lo:mid], label='%s[isolate]' % label, **kw)):
+                hi = mid
+            else:
+                lo = mid
+        return lo if self._eval_crash(self.tlc(module, cfg, trace=[tr[lo]], label='%s[isolate]' % label, **kw)) else None
 
     def require_clean(self, r, allow_violation=True):
         """Raise MachineryError when TLC did not run to completion for a reason other than a verdict."""
@@ -414,12 +484,24 @@ def run_check(fn, pid):
     """Entry point wrapper: exit codes 0 held / 1 violation / 2 machinery failure."""
     try:
         rc = fn()
-    except MachineryError as e:
-        print('MACHINERY-FAILURE property=%s %s' % (pid, e))
-        rc = 2
-    except Exception:
+    except Exception as e:
         import traceback
-        traceback.print_exc()
-        print('MACHINERY-FAILURE property=%s unexpected exception in the harness' % pid)
-        rc = 2
+        ck = Check.current
+        if ck is not None and ck.violations:
+            # verdicts evaluated by TLC have already established (and printed) violations; that the harness stumbles
+            # afterwards over the same broken observations (post-processing, coverage bookkeeping) does not unsay them
+            traceback.print_exc()
+            print('note: harness stopped early after the violations above (%s)' % type(e).__name__)
+            try:
+                ck.finish('run ended early after violations: ' + repr(e)[:200])
+            except Exception:
+                pass
+            rc = 1
+        elif isinstance(e, MachineryError):
+            print('MACHINERY-FAILURE property=%s %s' % (pid, e))
+            rc = 2
+        else:
+            traceback.print_exc()
+            print('MACHINERY-FAILURE property=%s unexpected exception in the harness' % pid)
+            rc = 2
     sys.exit(rc)
